@@ -12,24 +12,36 @@ from translate import c04_formulas as tr
 from translate import c04_inverse as tri
 
 MANIFEST = dict(
-    technique='Rocq proof over R (ring/field/nsatz/nra) on formulas and a dispatch table regenerated from math.py by an ast '
-              'symbolic executor + bit-exact correspondence of the extracted expression trees + numeric oracle on the '
-              'complete operand-type matrix',
-    text='Theorems in Props/C04.v, about the expression trees read out of MatrixBase.from_angle/from_pitch/from_yaw/from_roll/'
-         '_mat_mul/_vec_rot/transpose/_to_angle on every run: from_angle is orthonormal with determinant 1 and equals '
-         'roll*pitch*yaw in the row-vector convention (axes fixed, handedness at +90 degrees); _mat_mul and _vec_rot are '
-         'associative, also when both operands are one object; transpose is the unique two-sided inverse of a rotation; '
+    technique='Rocq proof over R (ring/field/nsatz/nra) on formulas, a dispatch table and a Gauss-Jordan row-operation '
+              'program regenerated from math.py by ast symbolic executors / loop unrolling; generic theorems + kernel-checked '
+              'instance obligations (table_ok, gj_prog_ok by abstract interpretation, guard_cfg_ok, aliasing polynomials); '
+              'bit-exact correspondence of the extracted expression trees, of every dispatch row, and of the Gauss-Jordan '
+              'interpreter instantiated with IEEE binary64 (Coq primitive floats); numeric oracle on the complete '
+              'operand-type matrix',
+    text='Theorems in Props/C04.v, about the objects read out of MatrixBase.from_angle/from_pitch/from_yaw/from_roll/'
+         '_mat_mul/_vec_rot/transpose/_to_angle/inverse and the @ methods on every run: from_angle is orthonormal with '
+         'determinant 1 and equals roll*pitch*yaw in the row-vector convention (axes fixed, handedness at +90 degrees); '
+         '_mat_mul and _vec_rot are associative, also when both operands are one object; transpose is the unique two-sided '
+         'inverse of a rotation; for EVERY straight-line program of pivot-search/row-swap, row-elimination and row-scaling '
+         'operations accepted by the decidable test gj_prog_ok (abstract interpretation of the left block over {0,1,unknown}), '
+         'whenever the interpreter of the program over the reals returns n for input m then n*m = I, hence n = transpose(m) '
+         'for a rotation m; the program unrolled from today\'s MatrixBase.inverse is accepted (instance obligations); '
          'Matrix->Angle->Matrix is the identity when the horizontal length of the forward row exceeds 0.001 and within '
-         '2*that length entrywise otherwise (atan2 enters as a visible hypothesis); for every (operator form, left class, '
-         'right class, same-object?) the dispatch table generated from __matmul__/__rmatmul__/__imatmul__ returns the '
-         'specification product, a fresh result and unchanged operands (kernel-checked table_ok = true + generic soundness '
-         'theorem).  The trees and the table are compared bit-for-bit with the running implementation; all identities are '
-         'searched numerically within 1e-9*max(1,|v|).',
-    note='Exact real arithmetic: floating-point rounding is outside the model (the property says "up to rounding"); axioms: '
-         'the classical-reals axioms of Coq.Reals only.  Trusted: translate/c04_formulas.py (symbolic executor for '
-         'straight-line arithmetic and for the small object language of the @ methods; tied by the bit-exact correspondence), '
-         'libm sin/cos/atan2/sqrt.  inverse() (Gauss-Jordan) is searched, not modelled: the theorem shows that ANY inverse '
-         'of a rotation equals the transpose.  The Cython twin _math.pyx cannot be built and is not verified.',
+         '2*that length entrywise otherwise (atan2 enters as a visible hypothesis); the guard of _to_angle, reified as '
+         '(operator, operand polynomial under sqrt, literal), is the engine threshold whenever the three named obligations '
+         'hold; for every (operator form, left class, right class, same-object?) the dispatch table generated from '
+         '__matmul__/__rmatmul__/__imatmul__ returns the specification product, a fresh result and unchanged operands '
+         '(kernel-checked table_ok = true + generic soundness theorem).  The trees, the table and the inverse program are '
+         'compared bit-for-bit with the running implementation; all identities are searched numerically within '
+         '1e-9*max(1,|v|).',
+    note='Exact real arithmetic: floating-point rounding is outside the theorems (the property says "up to rounding"); the '
+         'binary64 instance of the Gauss-Jordan interpreter is used only for the correspondence.  Axioms: the classical-reals '
+         'axioms of Coq.Reals only.  Trusted: translate/c04_formulas.py, translate/c04_inverse.py (symbolic executors / loop '
+         'unroller; tied by the bit-exact correspondences; the polynomial expansion of the reified pieces is re-proved by ring), '
+         'libm sin/cos/atan2/sqrt, Coq primitive floats = hardware binary64.  NOT proved: that inverse() returns (does not '
+         'raise) on every rotation - searched only (oracle: inverse() vs transpose() on every sampled rotation, inverse() of '
+         'scaled rotations is a two-sided inverse); so a too-large diagonal threshold or a pivot search that skips rows is '
+         'caught by the search, not by an obligation.  The Cython twin _math.pyx cannot be built and is not verified.',
 )
 
 CONCRETE = tr.CONCRETE
@@ -770,17 +782,30 @@ def run(ck: Ck) -> None:
                'non-trivial = not the identity rotation; distinct by the full tuple of numbers.  Operand matrix: every '
                '(form, left class, right class, same object?) of 3 x 7 x 7 (+6 aliased), each with fresh random values; '
                'non-trivial = supported operand kinds.  Formula correspondence: random and near-pole matrices, 30% of them '
-               'not rotations; distinct by inputs.  Thorough adds the full 24^3 grid of multiples of 15 degrees.')
+               'not rotations; distinct by inputs.  Thorough adds the full 24^3 grid of multiples of 15 degrees.  inverse() '
+               'correspondence: 14 input classes (rotations of the four angle classes, random, small integers with exact '
+               'pivot ties, rank 2, rank 1, scaled signed permutations, diagonals around the 1e-5 threshold, magnitudes '
+               '1e-150..1e150, signed zeros, one inf/nan entry, corpus); distinct by the bit patterns of the nine inputs; all '
+               'three outcomes (result / no-inverse / ZeroDivisionError) occur.')
     ck.assumptions += [
         'Arithmetic in the theorems is over the real numbers; IEEE rounding is outside the model (property: "up to rounding"). '
         'The numeric oracle bounds the rounding error by 1e-9*max(1,|v|) on the sampled inputs only.',
         'libm atan2 enters the Euler theorems as the hypothesis atan2_spec (cos/sin of atan2 y x are x/|(x,y)|, y/|(x,y)| away '
         'from the origin); math.radians/degrees are d*PI/180 and t*180/PI; float % 360 is x - 360*floor(x/360).',
-        'The float literal 0.001 is read as the rational 1/1000.',
+        'The float literals 0.001 and 0.00001 are read as the rationals 1/1000 and 1/100000.',
+        'inverse(): the theorems say what inverse() returns WHEN it returns; that it returns on every rotation is searched only.',
+        'Vec arithmetic used by inverse() (-=, *, /= generated by exec() templates, componentwise) is not translated; it is '
+        'covered by the bit-exact correspondence of the whole method.',
     ]
     ck.trusted += ['translate/c04_formulas.py symbolic executors (formulas: tied bit-for-bit to the implementation on every run; '
                    'dispatch: every table row compared with the implementation on every run)',
-                   'Coq.Reals classical axioms (listed per theorem in axioms_per_theorem)']
+                   'Coq.Reals classical axioms (listed per theorem in axioms_per_theorem)',
+                   'translate/c04_inverse.py loop unroller for MatrixBase.inverse (tied: the interpreter of the generated program '
+                   'over IEEE binary64 is compared bit for bit with inverse() on every run)',
+                   'Coq primitive floats (PrimFloat: sub, mul, div, abs, ltb, leb, eqb) are the IEEE binary64 operations of the CPU, '
+                   'as are CPython float operations',
+                   'translate/c04_formulas.py polynomial expansion of the reified guard / _mat_mul entries (re-proved by ring '
+                   'against the generated formulas in Rot/RotReifyProofs.v on every build)']
     ok_f = ck.translate('RotFormulas_gen', tr.translate_formulas)
     ok_d = ck.translate('RotDispatch_gen', tr.translate_dispatch)
     ok_i = ck.translate('RotInverse_gen', tri.translate_inverse)
